@@ -197,7 +197,70 @@ static void check_results(struct TbfTree *t, long times)
   }
 }
 
-/*@ harness bounded_build_execute_rebuild plain=1 enumerate=build unwind=UNW bounded=1-D,height3,<=4-particles-on-a-9-point-grid,blocksize1..3,both-modes defs=REAL_TREE props=C06,C07,C13,C01,C02,C08,C15 timeout=1500 */
+
+static void tb_inputs(struct TbfSpacialConfiguration *cfg, struct std_array_double_2 *in, struct std_vector_std_array_double_2 *parts)
+{
+  cfg->treeHeight = HEIGHT;
+  cfg->boxCenter.d[0] = 0.5; cfg->boxCorner.d[0] = 0.0; cfg->boxWidths.d[0] = 1.0; cfg->boxWidthsAtLeafLevel.d[0] = 1.0 / NLEAF;
+  for(long l = 0; l < NLEAF; ++l) g_count[l] = 0;
+  for(long p = 0; p < CFG_NP; ++p) { g_poscode[p] = CFG_POSCODE(p); in[p].d[0] = POSOF(g_poscode[p]); in[p].d[1] = 100.0 + p; g_count[leaf_of_code(g_poscode[p])]++; }
+  parts->data = in; parts->size = CFG_NP; parts->cap = NPMAX;
+}
+/*@ harness bounded_build plain=1 flags=max-field-sensitivity-array-size:4096 enumerate=build unwind=UNW bounded=1-D,height3,<=4-particles-on-a-9-point-grid,blocksize1..3,both-modes defs=REAL_TREE props=C06,C07,C15 timeout=1500 */
+void bounded_build(void)
+{
+  struct TbfSpacialConfiguration cfg; struct std_array_double_2 in[NPMAX]; struct std_vector_std_array_double_2 parts;
+  tb_inputs(&cfg, in, &parts);
+  struct TbfTree t;
+  TbfTree__ctor__std_vector_std_array_double_2(&t, &cfg, &parts, CFG_BS, CFG_MODE);
+  check_tree(&t, in, CFG_NP, CFG_BS, CFG_MODE, 1);
+  CANARY();
+}
+/*@ harness bounded_rebuild plain=1 flags=max-field-sensitivity-array-size:4096 enumerate=build unwind=UNW bounded=1-D,height3,<=4-particles-on-a-9-point-grid,blocksize1..3,both-modes,one-particle-moved defs=REAL_TREE props=C13,C07,C15 timeout=1500 */
+void bounded_rebuild(void)
+{
+  struct TbfSpacialConfiguration cfg; struct std_array_double_2 in[NPMAX]; struct std_vector_std_array_double_2 parts;
+  tb_inputs(&cfg, in, &parts);
+  struct TbfTree t;
+  TbfTree__ctor__std_vector_std_array_double_2(&t, &cfg, &parts, CFG_BS, CFG_MODE);
+  /* stand for an earlier execution: give every particle distinguishable results and dirty every cell expansion */
+  for(long g = 0; g < NLEAF; ++g) if(g < (long)t.particleGroups.size) {
+    PartGroup *pg = &t.particleGroups.data[g];
+    for(long l = 0; l < NLEAF; ++l) if(l < PG_HDR(pg)->nbLeaves) {
+      struct ARR_RHS rp = TbfParticlesContainer__getParticleRhs(pg, l);
+      struct std_array_double_p_2 dp = TbfParticlesContainer__getParticleData(pg, l);
+      for(long k = 0; k < NPMAX; ++k) if(k < PG_LEAVES(pg)[l].nbParticles) {
+        long p = PG_PIDX(pg)[PG_LEAVES(pg)[l].offSet + k];
+        for(long s = 0; s < NBRHS; ++s) rp.d[s][k] = 1000 * (p + 1) + s;
+#ifdef CFG_MOVE
+        if(p == 0) dp.d[0][k] = POSOF(CFG_MOVE);      /* C13: particle 0 moved in place */
+#endif
+      }
+    }
+  }
+  for(long lv = 0; lv < HEIGHT; ++lv) for(long g = 0; g < NLEAF; ++g) if(g < (long)t.cellBlocks.data[lv].size) {
+    const CellGroup *cg = &t.cellBlocks.data[lv].data[g];
+    for(long i = 0; i < NLEAF; ++i) if(i < CG_HDR(cg)->nbCells) { CG_MULT(cg)[i].c[0] = 7; CG_LOC(cg)[i].c[NLEAF - 1] = 9; }
+  }
+#ifdef CFG_MOVE
+  g_count[leaf_of_code(g_poscode[0])]--; g_count[leaf_of_code(CFG_MOVE)]++;
+  g_poscode[0] = CFG_MOVE; in[0].d[0] = POSOF(CFG_MOVE);
+#endif
+  TbfTree__rebuild(&t);
+  /* C13: equivalent to a fresh build from the edited particles (same structural checks), expansions reset ... */
+  check_tree(&t, in, CFG_NP, CFG_BS, CFG_MODE, 0);
+  for(long lv = 0; lv < HEIGHT; ++lv) for(long g = 0; g < NLEAF; ++g) if(g < (long)t.cellBlocks.data[lv].size) {
+    const CellGroup *cg = &t.cellBlocks.data[lv].data[g];
+    for(long i = 0; i < NLEAF; ++i) if(i < CG_HDR(cg)->nbCells) __CPROVER_assert(CG_MULT(cg)[i].c[0] == 0 && CG_LOC(cg)[i].c[NLEAF - 1] == 0, "C13: rebuild resets every cell expansion to zero");
+  }
+  /* ... and every particle keeps its accumulated results under its original index */
+  long after[NPMAX][NBRHS];
+  collect_rhs(&t, after);
+  for(long p = 0; p < CFG_NP; ++p) for(long s = 0; s < NBRHS; ++s) __CPROVER_assert(after[p][s] == 1000 * (p + 1) + s, "C13: rebuild keeps every particle's accumulated results under its original index");
+  CANARY();
+}
+
+/*@ harness bounded_build_execute_rebuild tier=thorough plain=1 flags=max-field-sensitivity-array-size:4096 enumerate=build unwind=UNW bounded=1-D,height3,<=4-particles-on-a-9-point-grid,blocksize1..3,both-modes defs=REAL_TREE props=C06,C07,C13,C01,C02,C08,C15 timeout=1500 */
 void bounded_build_execute_rebuild(void)
 {
   struct TbfSpacialConfiguration cfg;
